@@ -28,7 +28,7 @@ var skipInit = map[string]bool{
 	"os/exec": true, "net": true, "internal/testlog": true, "testing": true, "log": true,
 	"math/rand": true, "math/rand/v2": true, "crypto/rand": true, "os/signal": true,
 	"internal/runtime/maps": true, "fmt": true, "os/user": true, "runtime/debug": true,
-	"internal/reflectlite": true, "internal/oserror": true,
+	"internal/reflectlite": true, "internal/oserror": true, "context": true,
 	vpPath: true,
 }
 
@@ -269,11 +269,15 @@ func init() {
 	}
 	reg("(*sync.Mutex).TryLock", func(fr *frame, args []value) value { fr.i.lockDepth++; return true })
 	reg("(*sync.Pool).Get", func(fr *frame, args []value) value {
+		i := fr.i
 		p := args[0].(*value)
-		l := fr.i.pools[p]
+		l := i.pools[p]
 		if n := len(l); n > 0 {
 			v := l[n-1]
-			fr.i.pools[p] = l[:n-1]
+			i.pools[p] = l[:n-1]
+			if i.journalOn {
+				i.journalFn(func() { i.pools[p] = l })
+			}
 			return v
 		}
 		// field New func() any
@@ -282,15 +286,99 @@ func init() {
 		if f, ok := newFn.(*ssa.Function); ok && f == nil {
 			return iface{}
 		}
-		return fr.i.call(fr, fr.callPos, newFn, nil)
+		return i.call(fr, fr.callPos, newFn, nil)
 	})
 	reg("(*sync.Pool).Put", func(fr *frame, args []value) value {
+		i := fr.i
 		p := args[0].(*value)
 		if it, ok := args[1].(iface); ok && it.t == nil {
 			return nil
 		}
-		fr.i.pools[p] = append(fr.i.pools[p], args[1])
+		l := i.pools[p]
+		n := len(l)
+		i.pools[p] = append(l[:n:n], args[1])
+		if i.journalOn {
+			i.journalFn(func() { i.pools[p] = l })
+		}
 		return nil
+	})
+
+	// sync.Map: sequential model on an ordered map kept in a side table (journalled)
+	smap := func(fr *frame, p *value, create bool) *omap {
+		i := fr.i
+		if m, ok := i.syncMaps[p]; ok {
+			return m
+		}
+		if !create {
+			return nil
+		}
+		m := i.makeMap(types.NewInterfaceType(nil, nil), 0)
+		i.syncMaps[p] = m
+		if i.journalOn {
+			i.journalFn(func() { delete(i.syncMaps, p) })
+		}
+		return m
+	}
+	reg("(*sync.Map).Load", func(fr *frame, args []value) value {
+		m := smap(fr, args[0].(*value), false)
+		if v, ok := fr.mapLookup(m, args[1]); ok {
+			return tuple{v, true}
+		}
+		return tuple{iface{}, false}
+	})
+	reg("(*sync.Map).Store", func(fr *frame, args []value) value {
+		fr.mapInsert(smap(fr, args[0].(*value), true), args[1], args[2])
+		return nil
+	})
+	reg("(*sync.Map).LoadOrStore", func(fr *frame, args []value) value {
+		m := smap(fr, args[0].(*value), true)
+		if v, ok := fr.mapLookup(m, args[1]); ok {
+			return tuple{v, true}
+		}
+		fr.mapInsert(m, args[1], args[2])
+		return tuple{args[2], false}
+	})
+	reg("(*sync.Map).Delete", func(fr *frame, args []value) value {
+		if m := smap(fr, args[0].(*value), false); m != nil {
+			fr.mapDelete(m, args[1])
+		}
+		return nil
+	})
+	reg("(*sync.Map).LoadAndDelete", func(fr *frame, args []value) value {
+		m := smap(fr, args[0].(*value), false)
+		if v, ok := fr.mapLookup(m, args[1]); ok {
+			fr.mapDelete(m, args[1])
+			return tuple{v, true}
+		}
+		return tuple{iface{}, false}
+	})
+	reg("(*sync.Map).Range", func(fr *frame, args []value) value {
+		m := smap(fr, args[0].(*value), false)
+		if m == nil {
+			return nil
+		}
+		snapshot := append([]*mapEntry{}, m.entries...)
+		for _, e := range snapshot {
+			live := false
+			for _, x := range m.entries {
+				if x == e {
+					live = true
+				}
+			}
+			if !live {
+				continue
+			}
+			r := fr.i.call(fr, fr.callPos, args[1], []value{e.key, e.val})
+			if b, ok := r.(bool); ok && !b {
+				break
+			}
+		}
+		return nil
+	})
+	reg("(*golang.org/x/sync/singleflight.Group).Do", func(fr *frame, args []value) value {
+		// sequential model: no call is ever in flight concurrently
+		r := fr.i.call(fr, fr.callPos, args[2], nil).(tuple)
+		return tuple{r[0], r[1], false}
 	})
 
 	// ---- atomics ------------------------------------------------------------------------
